@@ -135,7 +135,9 @@ def run_property(pid, tier="quick", jobs=None, seed=0, only=None):
         t.setdefault("cost", 1.0)
     tasks.sort(key=lambda t: -t["cost"])
     ncpu = os.cpu_count() or 4
-    jobs = jobs or int(os.environ.get("VERIF_JOBS", "0")) or min(16, ncpu)
+    # every worker spawns 2-4 solver subprocesses per query: using ~70 % of the cores avoids oversubscription (measured on C02: 16 workers
+    # 175 s + a retry, 11 workers 49 s and no retry)
+    jobs = jobs or int(os.environ.get("VERIF_JOBS", "0")) or max(1, min(12, int(ncpu * 0.7)))
     # wall-clock solver budgets scale with the load of the host at start (other checks may be running next to this one)
     if "VERIF_TIMEOUT_SCALE" not in os.environ:
         try:
